@@ -1,6 +1,6 @@
 (* C18  A module's stub depends only on what the module uses (generator half). *)
 From Coq Require Import List String Ascii ZArith Bool Permutation Sorting.Sorted. Import ListNotations.
-From SV Require Import Lib.Str Model.Types Model.Api Model.Back Proofs.MoreProofs.
+From SV Require Import Lib.Str Model.Types Model.Api Model.Back Model.FrontSmall Model.View Model.Front Proofs.MoreProofs Proofs.WalkProofs.
 
 (* the stub of a module is a function of that module, the class dictionary and the re-export map: two API objects that
    agree on these yield the same stub, whatever other modules they contain *)
@@ -9,4 +9,17 @@ Theorem C18_module_stub_locality : forall nc (a a' : api) (m : module_) s,
   module_string (api_classes a) (api_reexport_map a) nc m s = module_string (api_classes a') (api_reexport_map a') nc m s.
 Proof. exact module_stub_locality. Qed.
 
+(* ANALYZER HALF: what the walk records for a module - the module record with everything in it, and the log - depends on the
+   state of the walk only through the declaration stack and the re-export map (which the package __init__ files fill):
+   the modules, classes, functions, parameters, results, attributes and enums registered before it are never read.
+   The remaining inputs are the module's own tree, the alias table `al` (built from the whole package: the documented
+   non-local input of `_find_alias`) and the docstring answers. *)
+Theorem C18_front_module_local : forall al d pref_doc warn a b m,
+  vs_stack a = vs_stack b -> vs_rmap a = vs_rmap b ->
+  rcore (walk_module al d pref_doc warn a m) = rcore (walk_module al d pref_doc warn b m) /\
+  (forall sa wa, walk_module al d pref_doc warn a m = Ok (sa, wa) ->
+     exists sb md, walk_module al d pref_doc warn b m = Ok (sb, wa) /\
+                   vs_modules sa = dict_set (m_id md) md (vs_modules a) /\ vs_modules sb = dict_set (m_id md) md (vs_modules b)).
+Proof. exact walk_module_local. Qed.
 Print Assumptions C18_module_stub_locality.
+Print Assumptions C18_front_module_local.
